@@ -130,6 +130,10 @@ Proof. exact generated_shapes_tables_req. Qed.
 Theorem c16_modelled_functions_unchanged_tables_info : shapes_hold fn_shapes shapes_tables_info = true.
 Proof. exact generated_shapes_tables_info. Qed.
 
+(* the cargo features are independent switches with nothing on by default: a feature set of the model means exactly its cfgs *)
+Theorem c16_feature_table_unchanged : features_hold cargo_features = true.
+Proof. exact generated_features. Qed.
+
 Eval vm_compute in "ASSUMPTIONS c16_generated_extends". Print Assumptions c16_generated_extends.
 Eval vm_compute in "ASSUMPTIONS c16_spec_extends". Print Assumptions c16_spec_extends.
 Eval vm_compute in "ASSUMPTIONS c16_std_arbitrary_irrelevant". Print Assumptions c16_std_arbitrary_irrelevant.
@@ -148,3 +152,4 @@ Eval vm_compute in "ASSUMPTIONS c16_modelled_functions_unchanged_filters". Print
 Eval vm_compute in "ASSUMPTIONS c16_modelled_functions_unchanged_response". Print Assumptions c16_modelled_functions_unchanged_response.
 Eval vm_compute in "ASSUMPTIONS c16_modelled_functions_unchanged_tables_req". Print Assumptions c16_modelled_functions_unchanged_tables_req.
 Eval vm_compute in "ASSUMPTIONS c16_modelled_functions_unchanged_tables_info". Print Assumptions c16_modelled_functions_unchanged_tables_info.
+Eval vm_compute in "ASSUMPTIONS c16_feature_table_unchanged". Print Assumptions c16_feature_table_unchanged.
